@@ -344,6 +344,25 @@ def _w_lbfgsb(case, ctx, rng):
     f0 = evaluate(M0, X, mask, fh, None)
     f1 = evaluate(M, X, mask, fh, None)
     ctx.check(f1 <= f0 + 1e-10 * max(1.0, abs(f0)), "LBFGSB.solve", "WORSE-THAN-START", f"objective of the result {f1!r} > start {f0!r}")
+    if not via:
+        # differential oracle: the returned model is the final iterate of SciPy's L-BFGS-B on the same objective (exact objective and
+        # gradient of the library, flattened factor by factor) from the same start with the same options -- not merely "some point the
+        # solver evaluated"
+        from scipy.optimize import fmin_l_bfgs_b
+
+        Mw = M0.copy()
+        N_ = len(shape)
+
+        def fg(x):
+            Mw.update(np.arange(N_), x)
+            F_, G_ = evaluate(Mw, X, mask, fh, gh)
+            return F_, ttb.ktensor(G_, copy=False).tovec(False)
+        x0 = M0.tovec(False).copy()
+        xr, fr, ir = fmin_l_bfgs_b(fg, x0, fprime=None, approx_grad=False, bounds=[(lb, np.inf)] * len(x0), maxiter=case["maxiter"], callback=lambda xk: None, **kwls)
+        got = M.tovec(False)
+        sc_ = max(1.0, float(np.max(np.abs(xr))))
+        ctx.check(bool(np.max(np.abs(got - xr)) <= 1e-9 * sc_), "LBFGSB.solve", "NOT-THE-FINAL-ITERATE",
+                  lambda: f"returned factors differ from the final iterate of the same L-BFGS-B run by {np.max(np.abs(got - xr)):.3e} (objective {f1!r} vs {fr!r})")
     if mask is not None and bool((mask == 0).any()):
         # entries declared missing carry no information: other (domain-valid, wildly different) values stored there change nothing
         X2d = Xd.copy()
